@@ -2,7 +2,8 @@
 
 A predicate built from comparisons of a few named scalars (canonical terms from
 sa.terms), and/or/not, numpy-style elementwise | & ~, any()/all() is evaluated
-under every weak ordering of its scalars.  NaN is excluded (assumption).
+under every weak ordering of its scalars; a scalar may also be given the rank NAN
+(unordered: all comparisons false except !=).
 """
 import itertools
 
@@ -25,6 +26,9 @@ def weak_orderings(names):
         yield dict(zip(names, ranks))
 
 
+NAN = 'nan'      # rank of a NaN operand (unordered)
+
+
 class Unknown(Exception):
     pass
 
@@ -40,6 +44,8 @@ def evaluate(t, rank, assume=None, transparent=('any', 'all', 'numpy.any', 'nump
         op, a, b = t[1], t[2], t[3]
         if a in rank and b in rank:
             ra, rb = rank[a], rank[b]
+            if ra is NAN or rb is NAN:      # IEEE: every ordered comparison with a NaN is false, != is true
+                return op == '!='
             if op == '<':
                 return ra < rb
             if op == '<=':
